@@ -171,7 +171,9 @@ namespace Spec
 
 /-- What the receiving end knows about the conversation, in protocol terms only. -/
 structure View where
-  /-- sequence number of the last segment accepted from the peer (`none`: nothing yet) -/
+  /-- sequence number of the last segment accepted from the peer (a `Nat`; before anything has been
+  accepted it is 255 at a responder, so that 0 is expected next, and 0 at an initiator: the handshake
+  response is the peer's segment number 0) -/
   lastSeq : Nat
   /-- negotiated window -/
   window : Nat
